@@ -218,41 +218,96 @@ Qed.
 (* a storage operation can fail by an injected fault or, on a file store, by a taken file name *)
 Definition may_fail (tc : tcfg) (fa : option nat) : Prop := fa <> None \/ t_key tc = KFile.
 
+(* [stepsk]: steps, with the key discipline in view: a new entry is the one Push writes for its
+   descriptor, and an unnamed new entry was not already there for Push (no ErrAlreadyExists) *)
+Definition as_desc (e : entry) : desc := mkDesc (e_mt e) (e_dg e) (e_sz e) [] [] no_extra.
+Definition fresh (k : keykind) (st : list entry) (e : entry) : Prop :=
+  is_nil (e_name e) = true -> push_dup k st (as_desc e) = false.
+Definition pushed_by (k : keykind) (evs : list event) (e : entry) : Prop :=
+  exists r d bytes, In (EvPush r d bytes) evs /\ e = mkEntry (d_mt d) (d_dg d) (d_sz d) bytes (entry_name k d).
+
+Definition stepsk (k : keykind) (s s' : state) (evs : list event) : Prop :=
+  steps s s' evs /\
+  exists l, s_store s' = s_store s ++ l /\ Forall (pushed_by k evs) l /\ Forall (fresh k (s_store s)) l.
+
+Lemma stepsk_steps k s s' evs : stepsk k s s' evs -> steps s s' evs.
+Proof. now intros [S _]. Qed.
+
+Lemma stepsk_refl k s : stepsk k s s [].
+Proof. split; [apply steps_refl|]. exists nil. split; [now rewrite app_nil_r|]. split; constructor. Qed.
+
+Lemma push_dup_app k st l d : push_dup k (st ++ l) d = push_dup k st d || push_dup k l d.
+Proof. unfold push_dup. apply existsb_app. Qed.
+
+Lemma pushed_by_mono k e1 e2 e : pushed_by k e1 e \/ pushed_by k e2 e -> pushed_by k (e1 ++ e2) e.
+Proof.
+  intros [(r & d & bs & I & E) | (r & d & bs & I & E)]; exists r, d, bs; split; auto; apply in_or_app; auto.
+Qed.
+
+Lemma stepsk_trans k s s1 s2 e1 e2 : stepsk k s s1 e1 -> stepsk k s1 s2 e2 -> stepsk k s s2 (e1 ++ e2).
+Proof.
+  intros (S1 & l1 & C1 & P1 & F1) (S2 & l2 & C2 & P2 & F2). split; [eapply steps_trans; eauto|].
+  exists (l1 ++ l2). split; [now rewrite C2, C1, app_assoc|]. split.
+  - apply Forall_app. split.
+    + eapply Forall_impl; [|exact P1]. intros e Pe. apply pushed_by_mono. now left.
+    + eapply Forall_impl; [|exact P2]. intros e Pe. apply pushed_by_mono. now right.
+  - apply Forall_app. split; auto. eapply Forall_impl; [|exact F2]. intros e Fr N.
+    specialize (Fr N). rewrite C1, push_dup_app in Fr. now apply orb_false_iff in Fr as [Fr _].
+Qed.
+
+Lemma stored_stepsk bd s s' evs d :
+  stepsk bd s s' evs -> stored bd (s_store s) d = true -> stored bd (s_store s') d = true.
+Proof. intros [S _]. eapply stored_steps; eauto. Qed.
+
+Lemma stepsk_nogrow k s ev :
+  stepsk k s (tick s ev) [ev].
+Proof.
+  split.
+  - split; [reflexivity|]. split; [simpl; lia|]. exists nil. split; [now rewrite app_nil_r | constructor].
+  - exists nil. split; [simpl; now rewrite app_nil_r|]. split; constructor.
+Qed.
+
 Lemma do_exists_spec tc fa s d s' r :
   do_exists tc fa s d = (s', r) ->
-  steps s s' [EvExists d] /\
+  stepsk (t_key tc) s s' [EvExists d] /\
   (r = None -> may_fail tc fa) /\
   (r = Some true -> stored (t_key tc) (s_store s') d = true).
 Proof.
-  unfold do_exists. destruct (faulty fa s) eqn:F; intros [= <- <-]; (split; [|split]); try discriminate.
-  - split; [reflexivity|]. split; [simpl; lia|]. exists nil. split; [now rewrite app_nil_r | constructor].
+  unfold do_exists. destruct (faulty fa s) eqn:F; intros [= <- <-]; (split; [apply stepsk_nogrow|split]);
+    try discriminate.
   - intros _. left. intro E. subst fa. discriminate.
-  - split; [reflexivity|]. split; [simpl; lia|]. exists nil. split; [now rewrite app_nil_r | constructor].
   - simpl. congruence.
 Qed.
 
+Lemma push_dup_as_desc k st d bytes n :
+  push_dup k st (as_desc (mkEntry (d_mt d) (d_dg d) (d_sz d) bytes n)) = push_dup k st d.
+Proof. reflexivity. Qed.
+
 Lemma do_push_spec tc fa s r d bytes s' ok :
   do_push tc fa s r d bytes = (s', ok) ->
-  steps s s' [EvPush r d bytes] /\
+  stepsk (t_key tc) s s' [EvPush r d bytes] /\
   (ok = false -> may_fail tc fa) /\
   (ok = true -> stored (t_key tc) (s_store s') d = true).
 Proof.
   unfold do_push.
-  assert (NoGrow : steps s (tick s (EvPush r d bytes)) [EvPush r d bytes]).
-  { split; [reflexivity|]. split; [simpl; lia|]. exists nil. split; [now rewrite app_nil_r | constructor]. }
   destruct (faulty fa s) eqn:F.
-  { intros [= <- <-]. split; [exact NoGrow|]. split; [|discriminate].
+  { intros [= <- <-]. split; [apply stepsk_nogrow|]. split; [|discriminate].
     intros _. left. intro E. subst fa. discriminate. }
   destruct (push_refused (t_key tc) (s_store s) d) eqn:R.
-  { intros [= <- <-]. split; [exact NoGrow|]. split; [|discriminate].
+  { intros [= <- <-]. split; [apply stepsk_nogrow|]. split; [|discriminate].
     intros _. right. unfold push_refused in R. destruct (t_key tc); try discriminate. reflexivity. }
   destruct (is_nil (entry_name (t_key tc) d) && push_dup (t_key tc) (s_store s) d) eqn:D; intros [= <- <-].
-  - apply andb_true_iff in D as [D1 D2]. split; [exact NoGrow|]. split; [discriminate|].
+  - apply andb_true_iff in D as [D1 D2]. split; [apply stepsk_nogrow|]. split; [discriminate|].
     intros _. simpl. now apply push_dup_stored.
   - split.
-    + split; [reflexivity|]. split; [simpl; lia|].
-      exists [mkEntry (d_mt d) (d_dg d) (d_sz d) bytes (entry_name (t_key tc) d)]. split; auto.
-      constructor; [|constructor]. exists r, d, bytes, (entry_name (t_key tc) d). simpl; auto.
+    + split.
+      * split; [reflexivity|]. split; [simpl; lia|].
+        exists [mkEntry (d_mt d) (d_dg d) (d_sz d) bytes (entry_name (t_key tc) d)]. split; auto.
+        constructor; [|constructor]. exists r, d, bytes, (entry_name (t_key tc) d). simpl; auto.
+      * exists [mkEntry (d_mt d) (d_dg d) (d_sz d) bytes (entry_name (t_key tc) d)]. split; [reflexivity|].
+        split; (constructor; [|constructor]).
+        -- exists r, d, bytes. simpl; auto.
+        -- intro N. cbn [e_name] in N. rewrite push_dup_as_desc. rewrite N in D. exact D.
     + split; [discriminate|]. intros _. simpl. apply stored_pushed.
 Qed.
 
@@ -279,7 +334,7 @@ Section PackProofs.
   Lemma pine_spec tc fa s d s' ok :
     blob_desc d ->
     push_if_not_exist tc fa s d empty_json = (s', ok) ->
-    exists evs, steps s s' evs /\ Forall (own d) evs /\
+    exists evs, stepsk (t_key tc) s s' evs /\ Forall (own d) evs /\
                 (ok = false -> may_fail tc fa) /\
                 (ok = true -> stored (t_key tc) (s_store s') d = true).
   Proof.
@@ -292,7 +347,7 @@ Section PackProofs.
       + intros [= <- <-]. exists [EvExists d]. split; [exact S1|].
         split; [constructor; [exact OX | constructor]|]. split; [discriminate | auto].
       + intro P. apply do_push_spec in P as (S2 & F2 & T2).
-        exists ([EvExists d] ++ [EvPush RBlob d empty_json]). split; [eapply steps_trans; eauto|].
+        exists ([EvExists d] ++ [EvPush RBlob d empty_json]). split; [eapply stepsk_trans; eauto|].
         split; [|split; auto]. constructor; [exact OX|]. constructor; [exact OP | constructor].
       + intros [= <- <-]. exists [EvExists d]. split; [exact S1|].
         split; [constructor; [exact OX | constructor]|]. split; [auto | discriminate].
@@ -406,23 +461,23 @@ Section PackProofs.
   | OutBadCreated s' evs :
       must_reject f at_ o = false ->
       ensure_created (o_ann o) (created_key f) now = None ->
-      steps s s' evs -> Forall (inv_ev f at_ o) evs ->
+      stepsk (t_key tc) s s' evs -> Forall (inv_ev f at_ o) evs ->
       outcome f tc fa s at_ o now s' (Err EInvalidDateTime)
   | OutFaultBlob s' evs :
       must_reject f at_ o = false -> may_fail tc fa ->
-      steps s s' evs -> Forall (inv_ev f at_ o) evs ->
+      stepsk (t_key tc) s s' evs -> Forall (inv_ev f at_ o) evs ->
       outcome f tc fa s at_ o now s' (Err EInjected)
   | OutFaultManifest s' evs ann m :
       must_reject f at_ o = false -> may_fail tc fa ->
       ensure_created (o_ann o) (created_key f) now = Some ann ->
       m = requested_manifest f at_ o ann ->
-      steps s s' (evs ++ [EvPush RManifest (result_desc f m) (marshal m)]) -> Forall (inv_ev f at_ o) evs ->
+      stepsk (t_key tc) s s' (evs ++ [EvPush RManifest (result_desc f m) (marshal m)]) -> Forall (inv_ev f at_ o) evs ->
       outcome f tc fa s at_ o now s' (Err EInjected)
   | OutOk s' evs ann m :
       must_reject f at_ o = false ->
       ensure_created (o_ann o) (created_key f) now = Some ann ->
       m = requested_manifest f at_ o ann ->
-      steps s s' (evs ++ [EvPush RManifest (result_desc f m) (marshal m)]) -> Forall (inv_ev f at_ o) evs ->
+      stepsk (t_key tc) s s' (evs ++ [EvPush RManifest (result_desc f m) (marshal m)]) -> Forall (inv_ev f at_ o) evs ->
       stored (t_key tc) (s_store s') (result_desc f m) = true ->
       Forall (fun x => stored (t_key tc) (s_store s') x = true) (invented f at_ o) ->
       outcome f tc fa s at_ o now s' (Ok (result_desc f m) m).
@@ -430,7 +485,7 @@ Section PackProofs.
   Lemma push_manifest_spec tc fa s m at_ s' r :
     push_manifest marshal H tc fa s m at_ = (s', r) ->
     forall d, d = mkDesc (kind_mt (m_kind m)) (H (marshal m)) (Z.of_nat (length (marshal m))) (m_ann m) at_ no_extra ->
-    steps s s' [EvPush RManifest d (marshal m)] /\
+    stepsk (t_key tc) s s' [EvPush RManifest d (marshal m)] /\
     (r = Ok d m /\ stored (t_key tc) (s_store s') d = true \/ r = Err EInjected /\ may_fail tc fa).
   Proof.
     unfold push_manifest. intros P d ->.
@@ -449,7 +504,7 @@ Section PackProofs.
   Lemma pcec_spec tc fa s mt ann s' r :
     push_custom_empty_config H tc fa s mt ann = (s', r) ->
     forall d, d = with_ann (desc_from_bytes H mt empty_json) ann ->
-    exists evs, steps s s' evs /\ Forall (own d) evs /\
+    exists evs, stepsk (t_key tc) s s' evs /\ Forall (own d) evs /\
       (r = Some d /\ stored (t_key tc) (s_store s') d = true \/ r = None /\ may_fail tc fa).
   Proof.
     unfold push_custom_empty_config. intros P d ->.
@@ -473,7 +528,7 @@ Section PackProofs.
           [reflexivity | exact EC | reflexivity | exact S1 | constructor | exact St | constructor].
       + apply (OutFaultManifest FArtifact tc fa s at_ o now s' [] ann (requested_manifest FArtifact at_ o ann));
           [reflexivity | exact F | exact EC | reflexivity | exact S1 | constructor].
-    - intros [= <- <-]. apply (OutBadCreated FArtifact tc fa s at_ o now s []); auto using steps_refl.
+    - intros [= <- <-]. apply (OutBadCreated FArtifact tc fa s at_ o now s []); auto using stepsk_refl.
   Qed.
 
   Ltac mr V :=
@@ -485,7 +540,7 @@ Section PackProofs.
   Lemma final_outcome f tc fa s at_ o now s1 evs ann m at' s' r :
     must_reject f at_ o = false ->
     ensure_created (o_ann o) (created_key f) now = Some ann ->
-    steps s s1 evs -> Forall (inv_ev f at_ o) evs ->
+    stepsk (t_key tc) s s1 evs -> Forall (inv_ev f at_ o) evs ->
     Forall (fun x => stored (t_key tc) (s_store s1) x = true) (invented f at_ o) ->
     m = requested_manifest f at_ o ann ->
     at' = d_at (result_desc f m) ->
@@ -495,16 +550,16 @@ Section PackProofs.
     intros MR EC S0 B0 I0 -> -> P.
     destruct (push_manifest_spec _ _ _ _ _ _ _ P _ eq_refl) as (S1 & [(-> & St) | (-> & F)]).
     - apply (OutOk f tc fa s at_ o now s' evs ann (requested_manifest f at_ o ann));
-        [exact MR | exact EC | reflexivity | eapply steps_trans; eauto | exact B0 | exact St |].
-      eapply Forall_impl; [|exact I0]. intros x Hx. eapply stored_steps; eauto.
+        [exact MR | exact EC | reflexivity | eapply stepsk_trans; eauto | exact B0 | exact St |].
+      eapply Forall_impl; [|exact I0]. intros x Hx. eapply stored_stepsk; eauto.
     - apply (OutFaultManifest f tc fa s at_ o now s' evs ann (requested_manifest f at_ o ann));
-        [exact MR | exact F | exact EC | reflexivity | eapply steps_trans; eauto | exact B0].
+        [exact MR | exact F | exact EC | reflexivity | eapply stepsk_trans; eauto | exact B0].
   Qed.
 
   (* the common tail: fill in created, marshal, push the manifest *)
   Lemma tail_outcome f tc fa s at_ o now s1 evs (m_of : list kv -> manifest) at' s' r :
     must_reject f at_ o = false ->
-    steps s s1 evs -> Forall (inv_ev f at_ o) evs ->
+    stepsk (t_key tc) s s1 evs -> Forall (inv_ev f at_ o) evs ->
     Forall (fun x => stored (t_key tc) (s_store s1) x = true) (invented f at_ o) ->
     (forall ann, m_of ann = requested_manifest f at_ o ann) ->
     (forall ann, at' = d_at (result_desc f (requested_manifest f at_ o ann))) ->
@@ -536,7 +591,7 @@ Section PackProofs.
             [reflexivity | exact EC | reflexivity | exact S1 | constructor | exact St | constructor].
         * apply (OutFaultManifest FRC2 tc fa s at_ o now s' [] ann (requested_manifest FRC2 at_ o ann));
             [reflexivity | exact F | exact EC | reflexivity | exact S1 | constructor].
-      + intros [= <- <-]. apply (OutBadCreated FRC2 tc fa s at_ o now s []); auto using steps_refl.
+      + intros [= <- <-]. apply (OutBadCreated FRC2 tc fa s at_ o now s []); auto using stepsk_refl.
     - pose (o := mkOpts subj lay ann0 None cann).
       destruct (push_custom_empty_config H tc fa s (if is_empty at_ then MediaTypeUnknownConfig else at_) cann)
         as [s1 [c|]] eqn:PC;
@@ -545,10 +600,10 @@ Section PackProofs.
       + destruct (ensure_created ann0 AnnotationCreated now) as [ann|] eqn:EC.
         * intro P. destruct (push_manifest_spec _ _ _ _ _ _ _ P _ eq_refl) as (S1 & [(-> & St) | (-> & F)]).
           -- apply (OutOk FRC2 tc fa s at_ o now s' evs ann (requested_manifest FRC2 at_ o ann));
-               [reflexivity | exact EC | reflexivity | eapply steps_trans; eauto | own2inv B0 | exact St |].
-             constructor; [|constructor]. eapply stored_steps; eauto.
+               [reflexivity | exact EC | reflexivity | eapply stepsk_trans; eauto | own2inv B0 | exact St |].
+             constructor; [|constructor]. eapply stored_stepsk; eauto.
           -- apply (OutFaultManifest FRC2 tc fa s at_ o now s' evs ann (requested_manifest FRC2 at_ o ann));
-               [reflexivity | exact F | exact EC | reflexivity | eapply steps_trans; eauto | own2inv B0].
+               [reflexivity | exact F | exact EC | reflexivity | eapply stepsk_trans; eauto | own2inv B0].
         * intros [= <- <-]. apply (OutBadCreated FRC2 tc fa s at_ o now s1 evs); auto; try (own2inv B0).
       + intros [= <- <-]. apply (OutFaultBlob FRC2 tc fa s at_ o now s1 evs); auto; try (own2inv B0).
   Qed.
@@ -566,7 +621,7 @@ Section PackProofs.
       + intro P.
         apply (tail_outcome FV10 tc fa s at_ o now s [] (fun ann => requested_manifest FV10 at_ o ann) (d_mt c));
           [ mr V
-          | apply steps_refl | constructor | constructor | reflexivity | reflexivity | exact P ].
+          | apply stepsk_refl | constructor | constructor | reflexivity | reflexivity | exact P ].
       + intros [= <- <-]. apply OutReject; [|right; left; reflexivity].
         mr V.
     - destruct at_ as [|a0 at_]; cbn [is_empty].
@@ -624,7 +679,7 @@ Section PackProofs.
       assert (MR : must_reject FV11 at_ o = false).
       { refine (eq_trans MRE _). unfold invalid_config. cbn. now rewrite V. }
       destruct (ensure_created ann0 AnnotationCreated now) as [ann|] eqn:EC.
-      2:{ intros [= <- <-]. apply (OutBadCreated FV11 tc fa s at_ o now s []); auto using steps_refl. }
+      2:{ intros [= <- <-]. apply (OutBadCreated FV11 tc fa s at_ o now s []); auto using stepsk_refl. }
       destruct lay as [[|d0 l0]|]; cbn [layers_or_empty].
       + (* empty, non-nil layers: push the placeholder layer *)
         destruct (push_if_not_exist tc fa s DescriptorEmptyJSON empty_json) as [s2 ok] eqn:PL.
@@ -634,7 +689,7 @@ Section PackProofs.
         * intro P. apply (final_outcome FV11 tc fa s at_ o now s2 evs ann (requested_manifest FV11 at_ o ann) at_ s' r MR EC S0 B0'); 
             [ constructor; [auto | constructor] | reflexivity | reflexivity | exact P ].
         * intros [= <- <-]. apply (OutFaultBlob FV11 tc fa s at_ o now s2 evs); auto; try (own2inv B0).
-      + intro P. apply (final_outcome FV11 tc fa s at_ o now s [] ann (requested_manifest FV11 at_ o ann) at_ s' r MR EC (steps_refl s));
+      + intro P. apply (final_outcome FV11 tc fa s at_ o now s [] ann (requested_manifest FV11 at_ o ann) at_ s' r MR EC (stepsk_refl (t_key tc) s));
           [ constructor | constructor | reflexivity | reflexivity | exact P ].
       + destruct (push_if_not_exist tc fa s DescriptorEmptyJSON empty_json) as [s2 ok] eqn:PL.
         destruct (pine_spec _ _ _ _ _ _ blob_desc_empty0 PL) as (evs & S0 & B0 & F0 & T0).
@@ -687,7 +742,11 @@ Section PackProofs.
   (* 6. the property                                                   *)
   (* ---------------------------------------------------------------- *)
 
-  Ltac to_blob := repeat match goal with Hh : Forall (inv_ev _ _ _) _ |- _ => apply inv_blob in Hh end.
+  Ltac to_blob :=
+    repeat match goal with
+           | Hh : Forall (inv_ev _ _ _) _ |- _ => apply inv_blob in Hh
+           | Hs : stepsk _ _ _ _ |- _ => apply stepsk_steps in Hs
+           end.
 
   (* 6a. rejection happens before any storage operation *)
   Theorem reject_before_push f tc fa s at_ o now :
@@ -764,7 +823,7 @@ Section PackProofs.
                 Forall (inv_ev f at_ o) evs.
   Proof.
     intro P. apply pack_outcome in P. inversion P; subst. exists evs.
-    match goal with Hs : steps _ _ _ |- _ => destruct Hs as (E & _) end. split; auto.
+    match goal with Hs : stepsk _ _ _ _ |- _ => destruct Hs as ((E & _) & _) end. split; auto.
   Qed.
 
   (* ... and a failing call issues at most such operations and the manifest push *)
@@ -776,10 +835,51 @@ Section PackProofs.
   Proof.
     intro P. apply pack_outcome in P. inversion P; subst.
     - exists []. split; [constructor | left; now rewrite app_nil_r].
-    - exists evs. match goal with Hs : steps _ _ _ |- _ => destruct Hs as (E & _) end. split; auto.
-    - exists evs. match goal with Hs : steps _ _ _ |- _ => destruct Hs as (E & _) end. split; auto.
-    - exists evs. match goal with Hs : steps _ _ _ |- _ => destruct Hs as (E & _) end. split; auto.
+    - exists evs. match goal with Hs : stepsk _ _ _ _ |- _ => destruct Hs as ((E & _) & _) end. split; auto.
+    - exists evs. match goal with Hs : stepsk _ _ _ _ |- _ => destruct Hs as ((E & _) & _) end. split; auto.
+    - exists evs. match goal with Hs : stepsk _ _ _ _ |- _ => destruct Hs as ((E & _) & _) end. split; auto.
       right. eauto.
+  Qed.
+
+  (* for these key disciplines Exists and "Push answers ErrAlreadyExists" are the same question *)
+  Lemma stored_push_dup k st d : k <> KFile -> stored k st d = push_dup k st d.
+  Proof. destruct k; try reflexivity. congruence. Qed.
+
+  Lemma entry_name_nofile k d : k <> KFile -> entry_name k d = [].
+  Proof. destruct k; try reflexivity. congruence. Qed.
+
+  (* Idempotence on content-addressed targets (memory, OCI layout, registry; with or without Exists,
+     whatever they held before): repeating a successful call with a fixed created annotation returns the
+     same descriptor and manifest and leaves the store exactly as it was -- every Exists answers true or
+     every Push answers ErrAlreadyExists, which Pack swallows. *)
+  Theorem repeat_call_changes_nothing f tc fa1 s at_ o now1 now2 s1 d m v s2 r2 :
+    t_key tc <> KFile ->
+    ann_get (created_key f) (o_ann o) = Some v ->
+    pack marshal H f tc fa1 s at_ o now1 = (s1, Ok d m) ->
+    pack marshal H f tc None s1 at_ o now2 = (s2, r2) ->
+    r2 = Ok d m /\ s_store s2 = s_store s1.
+  Proof.
+    intros NF G P1 P2.
+    apply pack_outcome in P1. inversion P1 as [| | | | s1' evs1 ann1 m1 MR1 EC1 Em1 S1 B1 St1 I1]; subst.
+    rewrite (ensure_created_fixed _ _ now1 now2 v G) in EC1.
+    apply pack_outcome in P2. inversion P2 as [e MR2 V2 | s2' evs2 MR2 EC2 S2 B2 | s2' evs2 MR2 F2 S2 B2
+                                              | s2' evs2 ann2 m2 MR2 F2 EC2 Em2 S2 B2
+                                              | s2' evs2 ann2 m2 MR2 EC2 Em2 S2 B2 St2 I2]; subst;
+      try congruence; try (destruct F2 as [F2 | F2]; congruence).
+    rewrite EC1 in EC2. injection EC2 as <-. split; [reflexivity|].
+    destruct S2 as (_ & l & E & PB & FR). rewrite E.
+    destruct l as [|e l]; [now rewrite app_nil_r | exfalso].
+    inversion PB as [|? ? (r & d0 & bytes & In0 & ->) _]; subst.
+    inversion FR as [|? ? Fe _]; subst.
+    assert (N : is_nil (e_name (mkEntry (d_mt d0) (d_dg d0) (d_sz d0) bytes (entry_name (t_key tc) d0))) = true).
+    { cbn [e_name]. now rewrite entry_name_nofile. }
+    specialize (Fe N). rewrite push_dup_as_desc, <- stored_push_dup in Fe by exact NF.
+    assert (St0 : stored (t_key tc) (s_store s1) d0 = true).
+    { apply in_app_or in In0 as [In0 | In0].
+      - rewrite Forall_forall in B2. destruct (B2 _ In0) as (_ & d' & Id' & [Ev | Ev]); [discriminate|].
+        injection Ev as _ -> _. rewrite Forall_forall in I1. now apply I1.
+      - destruct In0 as [Ev | []]. injection Ev as _ <- _. exact St1. }
+    congruence.
   Qed.
 
   Lemma requested_ann f at_ o ann : m_ann (requested_manifest f at_ o ann) = ann.
